@@ -1,0 +1,54 @@
+//go:build verif
+// +build verif
+
+package proc
+
+import (
+	"net"
+	"sync"
+
+	"github.com/samaritan-proxy/samaritan/pb/common"
+	"github.com/samaritan-proxy/samaritan/pb/config/service"
+	"github.com/samaritan-proxy/samaritan/proc/internal/log"
+	"github.com/samaritan-proxy/samaritan/stats"
+)
+
+type verifConn struct{ net.Conn }
+
+// VerifRegisterBurst creates a listener with the given connection limit and lets n goroutines
+// register a connection at the same moment (the registry's addConn, as handleRawConn calls it).
+// It returns how many were registered and the listener's counters.
+func VerifRegisterBurst(limit uint32, n int, scopeName string) (registered int, total, restricted uint64, active uint64) {
+	cfg := &service.Listener{Address: &common.Address{Ip: "127.0.0.1", Port: 1}, ConnectionLimit: limit}
+	st := NewStats(stats.CreateScope(scopeName))
+	li, err := NewListener(cfg, st.Downstream, log.New("[verif]"), nil)
+	if err != nil {
+		return -1, 0, 0, 0
+	}
+	l := li.(*listener)
+	ln, err := net.Listen("tcp", "127.0.0.1:0") // addConn logs the listener's address when it refuses
+	if err != nil {
+		return -1, 0, 0, 0
+	}
+	defer ln.Close()
+	l.ln = ln
+	a, b := net.Pipe()
+	defer a.Close()
+	defer b.Close()
+	var wg sync.WaitGroup
+	start := make(chan struct{})
+	for i := 0; i < n; i++ {
+		wg.Add(1)
+		go func() {
+			defer wg.Done()
+			<-start
+			l.addConn(&verifConn{a})
+		}()
+	}
+	close(start)
+	wg.Wait()
+	l.mu.Lock()
+	registered = len(l.conns)
+	l.mu.Unlock()
+	return registered, st.Downstream.CxTotal.Value(), st.Downstream.CxRestricted.Value(), st.Downstream.CxActive.Value()
+}
